@@ -36,6 +36,7 @@ type xferOpts struct {
 	trigEdit   func(b []byte) []byte    // rewrite of the trigger as it leaves the server
 	srvPaneCols   int   // width of the server's tmux pane (0: 77)
 	relayPaneCols []int // widths of the relays' tmux panes, nearest to the client first (nil: 60, 67, ...; then they do not count for the progress oracle)
+	othersNames map[string]bool // top-level names another transfer into the same destination reported (not this one's extras)
 	srvCCFrame bool                     // the server's pane belongs to a tmux in control mode: its output reaches the next hop as %output lines, and what is typed towards it lands in tmux's command channel (recorded in ccTyped), not in its stdin
 	cols       int32
 	uploadVia  int // 0 OneTimeUpload, 1 UploadFiles (drag queue + scripted shell), 2 typed paths
